@@ -213,7 +213,17 @@ func rwFree(t int) bool {
 	if waitRWw[t] {
 		return !m.writer && m.readers == 0
 	}
-	return !m.writer
+	if m.writer {
+		return false
+	}
+	// sync.RWMutex gives a blocked Lock call priority over later RLock calls: a thread that waits for the write
+	// side keeps new readers out (this is what makes a recursive read lock deadlock).
+	for u := 0; u < MaxThreads; u++ {
+		if u != t && waitRW[u] == m && waitRWw[u] {
+			return false
+		}
+	}
+	return true
 }
 
 //go:norace
